@@ -147,35 +147,60 @@ theorem blocksEvents_coherent : ∀ (cs : List Cached), (∀ c ∈ cs, c.Coheren
 
 /-! ### the three standard interfaces -/
 
-/-- the definitions `_intro` describes -/
-def stdIfaces : List Interface :=
-  [ ⟨"org.freedesktop.DBus.Introspectable".toList, [⟨"Introspect".toList, 0, 1, [], "s".toList⟩], [], []⟩,
-    ⟨"org.freedesktop.DBus.Peer".toList, [⟨"Ping".toList, 0, 0, [], []⟩], [], []⟩,
-    ⟨"org.freedesktop.DBus.ObjectManager".toList,
-      [⟨"GetManagedObjects".toList, 0, 1, [], "a{oa{sa{sv}}}".toList⟩], [], []⟩ ]
-
 /-- table tie: the text `_intro` is what `_getXml` would emit for `stdIfaces` -/
 theorem std_events : ifacesEvents stdIfaces = .ok introEvents := by decide
 
-theorem std_wf : ∀ i ∈ stdIfaces, i.WF := by
-  intro i hi
-  simp only [stdIfaces, List.mem_cons, List.not_mem_nil, or_false] at hi
-  rcases hi with rfl | rfl | rfl
-  · refine ⟨?_, by simp, by simp, by decide, by decide, by decide⟩
-    intro m hm
-    simp only [List.mem_cons, List.not_mem_nil, or_false] at hm
-    subst hm
-    exact ⟨[], ["s".toList], ⟨by decide, by decide⟩, ⟨by decide, by decide⟩, rfl, rfl⟩
-  · refine ⟨?_, by simp, by simp, by decide, by decide, by decide⟩
-    intro m hm
-    simp only [List.mem_cons, List.not_mem_nil, or_false] at hm
-    subst hm
-    exact ⟨[], [], ⟨by decide, by decide⟩, ⟨by decide, by decide⟩, rfl, rfl⟩
-  · refine ⟨?_, by simp, by simp, by decide, by decide, by decide⟩
-    intro m hm
-    simp only [List.mem_cons, List.not_mem_nil, or_false] at hm
-    subst hm
-    exact ⟨[], ["a{oa{sa{sv}}}".toList], ⟨by decide, by decide⟩, ⟨by decide, by decide⟩, rfl, rfl⟩
+/-- executable form of `Interface.WF` -/
+def Method.consistentB (m : Method) : Bool :=
+  match genCompleteTypes m.sigIn, genCompleteTypes m.sigOut with
+  | .ok ins, .ok outs =>
+    decide (ins.flatten = m.sigIn) && decide (outs.flatten = m.sigOut) &&
+    decide (m.nargs = ins.length) && decide (m.nret = outs.length)
+  | _, _ => false
+
+def Signal.consistentB (s : Signal) : Bool :=
+  match genCompleteTypes s.sig with
+  | .ok ts => decide (ts.flatten = s.sig) && decide (s.nargs = ts.length)
+  | _ => false
+
+def Interface.wfB (i : Interface) : Bool :=
+  i.methods.all Method.consistentB && i.signals.all Signal.consistentB &&
+  i.properties.all (fun p => p.access = kRead || p.access = kWrite || p.access = kReadWrite) &&
+  decide (i.methods.map Method.name).Nodup && decide (i.signals.map Signal.name).Nodup &&
+  decide (i.properties.map Property.name).Nodup
+
+theorem Method.consistentB_sound {m : Method} (h : m.consistentB = true) : m.Consistent := by
+  unfold Method.consistentB at h
+  split at h
+  · rename_i ins outs hi ho
+    simp only [Bool.and_eq_true, decide_eq_true_eq] at h
+    exact ⟨ins, outs, ⟨hi, h.1.1.1⟩, ⟨ho, h.1.1.2⟩, h.1.2, h.2⟩
+  · cases h
+
+theorem Signal.consistentB_sound {s : Signal} (h : s.consistentB = true) : s.Consistent := by
+  unfold Signal.consistentB at h
+  split at h
+  · rename_i ts ht
+    simp only [Bool.and_eq_true, decide_eq_true_eq] at h
+    exact ⟨ts, ⟨ht, h.1⟩, h.2⟩
+  · cases h
+
+theorem Interface.wfB_sound {i : Interface} (h : i.wfB = true) : i.WF := by
+  simp only [Interface.wfB, Bool.and_eq_true, List.all_eq_true, decide_eq_true_eq, Bool.or_eq_true] at h
+  obtain ⟨⟨⟨⟨⟨hm, hs⟩, hp⟩, n1⟩, n2⟩, n3⟩ := h
+  exact ⟨fun m hmem => Method.consistentB_sound (hm m hmem), fun s hmem => Signal.consistentB_sound (hs s hmem),
+    fun p hmem => by
+      rcases hp p hmem with (h | h) | h
+      · exact Or.inl h
+      · exact Or.inr (Or.inl h)
+      · exact Or.inr (Or.inr h),
+    n1, n2, n3⟩
+
+/-- table lemma: the definitions read off `_intro` are well formed -/
+theorem std_wfB : stdIfaces.all Interface.wfB = true := by decide
+
+theorem std_wf : ∀ i ∈ stdIfaces, i.WF :=
+  fun i hi => Interface.wfB_sound (List.all_eq_true.mp std_wfB i hi)
 
 /-! ### `generateIntrospectionXML` and the parse of its output -/
 
